@@ -226,6 +226,36 @@ let net_case (toks : string list) : string =
      | None -> "P err")
   | _ -> "BADCASE"
 
+(* ---------------- media types (C18) ---------------- *)
+
+let mime_fields (m : M.media) (only_keys : M.ascii list list option) : string =
+  let nsubs = List.length M.mime_subtypes and nsuf = List.length M.mime_suffixes in
+  let sub = match m.M.md_sub with M.SKnown i -> int_of_n i | M.SVendor -> nsubs | M.SExt -> nsubs + 1 in
+  let suf = match m.M.md_suffix with M.FKnown i -> int_of_n i | M.FNone -> nsuf | M.FExt -> nsuf + 1 in
+  let q = match m.M.md_q with Some v -> string_of_int (int_of_n v) | None -> "-" in
+  let ps = m.M.md_params in
+  let ps = List.sort_uniq compare (List.map (fun (k, v) -> hex_of_bytes k ^ "=" ^ hex_of_bytes v) ps) in
+  Printf.sprintf "ok %d %d %d %s p=%s %s" (int_of_n m.M.md_top) sub suf q
+    (if ps = [] then "-" else String.concat "," ps) (hex_of_bytes (M.to_string m))
+
+let mime_case (toks : string list) : string =
+  match toks with
+  | [ "M"; text ] ->
+    (match M.parse_media (bytes_of_hex text) with
+     | M.Inr m -> "M " ^ mime_fields m None
+     | M.Inl M.E415 -> "M err415"
+     | M.Inl M.EUnsup -> "M UNSUPPORTED-BY-MODEL")
+  | "B" :: top :: sub :: suf :: q :: ps ->
+    let ps = List.map (fun x -> match String.split_on_char '=' x with [ k; v ] -> (bytes_of_hex k, bytes_of_hex v) | _ -> ([], [])) ps in
+    let s = M.build_string (n_of_int (int_of_string top)) (n_of_int (int_of_string sub))
+        (if suf = "-" then None else Some (n_of_int (int_of_string suf)))
+        (if q = "-" then None else Some (n_of_int (int_of_string q))) ps in
+    (match M.parse_media s with
+     | M.Inr m -> "B " ^ mime_fields m (Some (List.map fst ps))
+     | M.Inl M.E415 -> "B err415"
+     | M.Inl M.EUnsup -> "B UNSUPPORTED-BY-MODEL")
+  | _ -> "BADCASE"
+
 let () =
   let area = Sys.argv.(1) in
   let f = match area with
@@ -236,6 +266,7 @@ let () =
     | "pconc" -> pconc_case
     | "promise" -> promise_case
     | "net" -> net_case
+    | "mime" -> mime_case
     | _ -> failwith ("unknown area " ^ area) in
   try
     while true do
